@@ -25,6 +25,7 @@ kinds
     @trait <trait name>                                 ghost items spliced at the start of that trait block
     @module                                             ghost items appended to the module
     @uses                                               `use` lines put at the top of the module
+    @fields <Struct>                                    body = the struct's field names; any difference => contract-stale (exit 2)
 fn-path:  name | Type::name | Trait::name  with optional impl="<substring of impl header>" to disambiguate.
 """
 import hashlib
@@ -634,6 +635,20 @@ def splice_module(mod: str, src: str, recs, report, havoc=(), variant="main"):
             elif variant == "iso:" + fq:
                 for h in hide:
                     add_attr(resolve_fn(fns, h), "#[verifier::external_body]")
+        elif k == "fields":
+            # stale-contract guard: the struct's field list must be the one the contract was written for
+            sname = rec.args[0]
+            sm = re.search(r"\bstruct[ \t]+%s\b[^{;]*\{" % re.escape(sname), masked)
+            if not sm:
+                raise ExtractError("anchor-lost struct %s in %s" % (sname, mod))
+            so = masked.find("{", sm.start())
+            sc = match_close(masked, so)
+            have = re.findall(r"(?m)^\s*(?:pub(?:\([a-z]+\))?\s+)?([a-z_][a-z0-9_]*)\s*:", masked[so + 1:sc])
+            want_f = [x.strip() for x in body.replace("\n", ",").split(",") if x.strip()]
+            if have != want_f:
+                raise ExtractError("contract-stale: fields of struct %s::%s are %s, the contract (%s) was written for %s" % (
+                    mod, sname, have, rec.origin, want_f))
+            anchors.append({"kind": k, "anchor": "%s::struct %s" % (mod, sname), "origin": rec.origin})
         elif k == "module":
             module_items.append(body)
         elif k == "uses":
